@@ -836,9 +836,14 @@ func c08Prefixes(res *hlib.Result, v *Vector, d namedDecoder, enc []byte, sh str
 	// prefixes say nothing (acceptance itself is C02 / C03's subject)
 	var ferr error
 	var unread int
-	if p := guard(func() { _, unread, ferr = d.fn(enc) }); p != nil || ferr != nil || unread != 0 {
+	if p := guard(func() { _, unread, ferr = d.fn(enc) }); p != nil || ferr != nil {
 		per[d.name+"/full-encoding-not-accepted"]++
 		return
+	}
+	if unread != 0 {
+		// "decoded" without reading everything (C02 / C03 judge that): the strict prefixes are still inputs this
+		// decoder must refuse - the ones it accepts are exactly what C08 forbids
+		per[d.name+"/full-encoding-left-bytes-unread"]++
 	}
 	if c08SelfTest {
 		enc = cat(enc, []byte{0})
